@@ -100,6 +100,51 @@ GcSubstLaw(gn) ==
        ELSE IF n >= 1 /\ n <= gn THEN got = caps[n] \o d
        ELSE got = GcRef(r)
 
+\* ---------------- assertion family (Za): histories over patterns whose match depends on text it does not consume ----------
+\* The history catalogue of RegexApi has six patterns; apart from ^ and $ none of them looks at text outside the characters it
+\* consumes.  Whether exec / test find the matches near the END of the subject (and what they leave in lastIndex there) depends
+\* on exactly that: a lookahead reads characters the pattern then consumes again (or characters after the match), a lookbehind
+\* and \b read characters before lastIndex.  This family enumerates the zero-width assertions themselves: every kind of assertion
+\* (positive / negative lookahead and lookbehind over a and over b, ^, $, \b, \B) x its position (before / after a consuming
+\* term) x the consuming term, plus composites (a lookahead over two characters that are then consumed, two lookaheads at one
+\* position, a lookahead inside a repeated group, a captured lookahead, a backreference, a counted repeat), and replays all
+\* histories over exec / test / lastIndex assignments on them.  The trace specification below judges them step by step.
+ZaAsserts == UNION {{[a |-> La(FALSE, Chr(c)), n |-> "lookahead", b |-> IF c = 97 THEN "over a" ELSE "over b"], [a |-> La(TRUE, Chr(c)), n |-> "negative lookahead", b |-> IF c = 97 THEN "over a" ELSE "over b"],
+                     [a |-> Lb(FALSE, Chr(c)), n |-> "lookbehind", b |-> IF c = 97 THEN "over a" ELSE "over b"], [a |-> Lb(TRUE, Chr(c)), n |-> "negative lookbehind", b |-> IF c = 97 THEN "over a" ELSE "over b"]} : c \in {97, 98}}
+             \cup {[a |-> Bol, n |-> "^", b |-> "position"], [a |-> Eol, n |-> "$", b |-> "position"], [a |-> Wb, n |-> "\\b", b |-> "position"], [a |-> Nwb, n |-> "\\B", b |-> "position"]}
+ZaAB == Cat(Chr(97), Chr(98))
+ZaComposites ==
+  {[ast |-> Cat(La(FALSE, ZaAB), ZaAB), cls |-> <<"composite", "", "lookahead over two characters, both consumed">>],                     \* (?=ab)ab
+   [ast |-> Cat(La(FALSE, Chr(97)), Cat(La(FALSE, Cat(AnyC, Chr(98))), Cat(AnyC, AnyC))), cls |-> <<"composite", "", "two lookaheads at one position">>],  \* (?=a)(?=.b)..
+   [ast |-> Rep(Ncg(Cat(La(FALSE, Chr(97)), Chr(97))), 1, -1, TRUE), cls |-> <<"composite", "", "lookahead inside a repeated group">>],    \* (?:(?=a)a)+
+   [ast |-> Cat(La(FALSE, Grp(1, Chr(97))), AnyC), cls |-> <<"composite", "", "captured lookahead">>],                                     \* (?=(a)).
+   [ast |-> Cat(Grp(1, Chr(97)), Bref(1)), cls |-> <<"composite", "", "backreference">>],                                                  \* (a)\1
+   [ast |-> Rep(Chr(97), 2, 2, TRUE), cls |-> <<"composite", "", "counted repeat">>]}                                                      \* a{2}
+ZaOf(cons) ==
+  {[ast |-> Cat(z.a, c), cls |-> <<z.n, "before the consumed text", z.b>>] : z \in ZaAsserts, c \in cons}
+  \cup {[ast |-> Cat(c, z.a), cls |-> <<z.n, "after the consumed text", z.b>>] : z \in ZaAsserts, c \in cons}
+  \cup ZaComposites
+ZaFull == ZaOf({Chr(97), AnyC})
+ZaPatterns == IF Quick THEN ZaOf({Chr(97)}) ELSE ZaFull
+\* the quick sub-grid contains every class (kind of assertion x position x what it looks at) of the full family
+ZaGridLaw == {z.cls : z \in ZaPatterns} = {z.cls : z \in ZaFull}
+ZaOpNames == IF Quick THEN {"exec", "test", "set1", "set2", "setLen"} ELSE {"exec", "test", "read", "set0", "set1", "set2", "setLen"}
+ZaOps == {k \in 1..Len(Ops) : Ops[k] \in ZaOpNames}                   \* indexes into Ops
+ZaLen == 3
+ZaFlags == 1..4                                                        \* indexes into FlagSets: '' g y gy
+ZaSubjects == IF Quick THEN <<<<97, 97>>, <<97, 98, 97>>, <<98, 97, 97, 98>>>>                                   \* aa, aba, baab
+              ELSE <<<<97, 97>>, <<97, 98, 97>>, <<98, 97, 97, 98>>, <<97>>, <<97, 98>>, <<97, 98, 97, 98>>>>   \* + a, ab, abab
+\* law of the reference over the family: the exec loop of a global regex skips no match - every position where an attempt of the
+\* pattern succeeds lies inside (or at the start of) one of the matches the loop reports, and the loop ends with lastIndex 0
+ZaNoSkipLaw(a) ==
+  \A k \in 1..Len(ZaSubjects) :
+    LET s == ZaSubjects[k]
+        all == GlobalResults(Rx(a, NoFlags, TRUE, FALSE), s, VInt(0), {}, <<>>)
+    IN /\ all.li = VInt(0)
+       /\ \A p \in 0..Len(s) :
+            Attempt(a, s, NoFlags, p, {}).ok =>
+              \E j \in 1..Len(all.rs) : all.rs[j].i = p \/ (all.rs[j].i < p /\ p < all.rs[j].i + Len(all.rs[j].g[1]))
+
 \* ---------------- Enum ---------------------------------------------------------------------------------
 VARIABLES ph, cur, tid, step, mli, bad
 tvars == <<ph, cur, tid, step, mli, bad>>
@@ -120,6 +165,12 @@ EnumNext ==
           /\ cur' = [kind |-> "gcpat", gn |-> gn, shape |-> sh, ast |-> GcPattern(gn, sh), src |-> Render(GcPattern(gn, sh)),
                      subjects |-> GcSubjects(gn), variants |-> GcVariants(gn),
                      classes |-> {GcClass(gn, r) : r \in GcRefs(gn)}]
+     \/ /\ ph' = "zaspace"
+        /\ cur' = [kind |-> "zaspace", ops |-> ZaOps, len |-> ZaLen, flags |-> ZaFlags, subjects |-> ZaSubjects,
+                   classes |-> {z.cls : z \in ZaPatterns},
+                   assign |-> [s \in 1..Len(ZaSubjects) |-> [k \in 1..Len(Ops) |-> IF Ops[k] \in AssignOps THEN AssignVal(Ops[k], Len(ZaSubjects[s])) ELSE Undef]]]
+     \/ \E z \in ZaPatterns :
+          /\ ph' = "zapat" /\ cur' = [kind |-> "zapat", ast |-> z.ast, src |-> Render(z.ast), cls |-> z.cls]
      \/ /\ ph' = "smgrid"
         /\ cur' = [kind |-> "smgrid", flags |-> SmFlags, subjects |-> SmSubjects, variants |-> Variants, li0 |-> Li0s, afterexec |-> AfterExec]
 EnumEmit == ph = "start" \/ PrintT(ToJson(cur))
@@ -141,6 +192,8 @@ SmLaw(a) ==
        /\ SplitM2(ng, s, VInt(0), 1, {}).v.e = SubSeq(sp.v.e, 1, Min(1, Len(sp.v.e)))
 LawsHold == /\ ph # "smpat" \/ SmLaw(cur.ast)
             /\ ph # "gcpat" \/ (GcGridLaw(cur.gn) /\ GcSubstLaw(cur.gn))
+            /\ ph # "zaspace" \/ ZaGridLaw
+            /\ ph # "zapat" \/ ZaNoSkipLaw(cur.ast)
 
 \* ---------------- Trace: total trace specification over recorded histories ------------------------------
 Recs == ndJsonDeserialize(IOEnv.OBS_FILE)
@@ -188,12 +241,17 @@ StepVerdict(rxv, s, op, pre, ev) ==
          IN [ok |-> FALSE, clause |-> clause, exp |-> exp,
              dev |-> IF hit # {} THEN LET d == CHOOSE d \in hit : \A e \in hit : Cardinality(d) <= Cardinality(e) IN CHOOSE x \in d : TRUE
                      ELSE special]
+\* a history of the catalogue names its pattern and subject by index (p, s); a history of the assertion family carries them (ast, subj)
+HistRx(r) == IF "ast" \in DOMAIN r
+             THEN LET fs == FlagSets[r.fl] IN Rx(r.ast, Flags(HasFlag(fs, "i"), HasFlag(fs, "m"), FALSE), HasFlag(fs, "g"), HasFlag(fs, "y"))
+             ELSE RxOf(r.p, FlagSets[r.fl])
+HistSubject(r) == IF "subj" \in DOMAIN r THEN r.subj ELSE Subjects[r.s]
 TraceInit == /\ tid \in 1..Len(Recs) /\ step = 1 /\ mli = VInt(0) /\ bad = <<>> /\ ph = "trace" /\ cur = <<>>
 TraceNext ==
   /\ step <= Len(Recs[tid].ops)
   /\ LET r == Recs[tid]
          ev == r.obs[step]
-         v == StepVerdict(RxOf(r.p, FlagSets[r.fl]), Subjects[r.s], Ops[r.ops[step]], mli, ev)
+         v == StepVerdict(HistRx(r), HistSubject(r), Ops[r.ops[step]], mli, ev)
      IN /\ mli' = ev.li                                       \* adopt what the engine shows (equal to the prediction on a good step)
         /\ bad' = IF v.ok THEN bad ELSE Append(bad, [at |-> step, clause |-> v.clause, dev |-> v.dev, exp |-> v.exp])
   /\ step' = step + 1 /\ UNCHANGED <<tid, ph, cur>>
